@@ -943,6 +943,10 @@ var c07GroupKeys = []c07Item{
 	{sql: "upper(value)", alias: "g", name: "g", tp: kvql.TSTR},
 	{sql: "is_int(value)", alias: "g", name: "g", tp: kvql.TBOOL},
 	{sql: "strlen(value)", alias: "g", name: "g", tp: kvql.TNUMBER},
+	// numbers of different widths and signs (-30, -5, 20, 45, 70, 95, 120): their order is not the
+	// order of their decimal texts
+	{sql: "strlen(value) * 25 - 30", alias: "g", name: "g", tp: kvql.TNUMBER},
+	{sql: "float(strlen(value)) * 2.5 - 3", alias: "g", name: "g", tp: kvql.TNUMBER},
 }
 
 var c07Values = []string{"3", "3", "10", "-1", "2.5", "0.75", "abc", "", "7", "007", "1e2", "-0", "b", "B", "10", "2.50"}
@@ -1213,6 +1217,20 @@ func c07PartB(c *runCtx, e *emitter, r *rng) {
 			desc[i] = r.intn(3)
 		}
 		c07RunStmt(e, 2, items, false, pick(r, wheres[:3]), "g", idx, desc, false, kvs, B)
+	}
+	// B3b: ORDER BY over the GROUP BY key itself, first and second position, both directions, for
+	// every group key kind (the aggregate node hands its key columns on as rendered text)
+	for gi, g := range c07GroupKeys {
+		for _, n := range []int{5, 9, 12} {
+			kvs := c07Store(r, n, 3+r.intn(14))
+			for _, B := range []int{1, 3} {
+				items := []c07Item{g, c07Aggr[gi%len(c07Aggr)], c07Aggr[(gi+3)%len(c07Aggr)]}
+				for _, d := range []int{0, 2} {
+					c07RunStmt(e, 2, items, false, "key ^= 'k'", "g", []int{0}, []int{d}, false, kvs, B)
+					c07RunStmt(e, 2, items, false, "key ^= 'k'", "g", []int{1, 0}, []int{2 - d, d}, false, kvs, B)
+				}
+			}
+		}
 	}
 	// B4: JSON fields (statically text): text values, and the number / string mix of D16
 	js := [][2]string{{"j1", `{"x":"b","n":2}`}, {"j2", `{"x":"a","n":"s"}`}, {"j3", `{"x":"b","n":1.5}`}, {"j4", `{"x":"","n":"a"}`}}
